@@ -1,8 +1,13 @@
-(* C18/C19 — the source facts the hand-written models M_Cache.v / M_Ibc.v were transcribed from, stated over the
-   token lists that harness/gen_c18 regenerates from the CURRENT sources on every run (coq/gen/Gen_C18.v).
-   A token list records, in source order: "branch" (ctx.CacheContext()), "call:cache:F" / "call:outer:F" (a call
-   that is handed the cache / the outer context), "commit" / "defer-commit" (the branch's write function),
-   "if(err){" "if(ok){" "if(<cond with a call>){" "else{" "loop{" "case(..){" "func{" "}", and the returns.
+(* C18/C19 — the source facts the hand-written models M_Cache.v / M_CacheWrites.v / M_Ibc.v were transcribed from, stated over
+   the token lists that harness/gen_c18 regenerates from the CURRENT sources on every run (coq/gen/Gen_C18.v).
+   A token list records, in source order: "branch" (ctx.CacheContext()), "call:cache:<recv>.F" / "call:outer:<recv>.F" (a call that
+   is handed the cache / the outer context; the callee WITH its receiver chain: k.bankKeeper.SendCoins, im.Keeper.OnRecvPacket),
+   "commit" / "defer-commit" (the branch's write function), "defer-recover", "kv-set:<class>" / "kv-delete:<class>" (a direct store
+   write through ctx.KVStore), "event" (EmitEvent…), "set:<field>" (assignment to a field), "if(err){" "if(ok){"
+   "if(<cond with a call>){" "else{" "loop{" "case(..){" "func{" "}", and the returns.
+   The facts about the boundary functions are EQUALITIES with the list the model was transcribed from (any change of order,
+   context, condition, callee or receiver breaks them); the callees two levels below (deep_shapes) are checked by generic facts;
+   calls that carry a context into another module (deep_unresolved) are pinned as a list.
    No proofs in this file. *)
 From Coq Require Import String List Bool Arith.
 From FxV Require Import gen.Gen_C18.
@@ -25,98 +30,121 @@ Definition before (a b : string) (l : list string) : bool :=
   Nat.ltb (index_of a l) (index_of b l) && Nat.ltb (index_of b l) (length l).
 Definition list_eqb (a b : list string) : bool := Nat.eqb (length a) (length b) && prefix_of a b.
 
+
 (* processAttestation: branch; handler on the branch; error => return without writing; else write *)
 Definition ok_processAttestation : bool :=
   list_eqb shape_processAttestation
-    ["branch"; "call:cache:AttestationHandler"; "if(err){"; "return-err"; "}"; "commit"; "return"].
+    ["branch"; "call:cache:k.AttestationHandler"; "if(err){"; "return-err"; "}"; "commit"; "return"].
 
-(* TryAttestation: observed-marking on ctx BEFORE processAttestation, clean-ups AFTER, all on ctx *)
+(* TryAttestation: observed-marking on ctx (nonce, height, att.Observed, SetAttestation) BEFORE processAttestation, whose error is
+   dropped (empty if(err) block: the tolerated failure); event; clean-ups AFTER, all on ctx; no branch of its own *)
 Definition ok_TryAttestation : bool :=
-  block_in ["call:outer:SetLastObservedEventNonce"; "call:outer:SetLastObservedBlockHeight"; "call:outer:SetAttestation";
-            "call:outer:processAttestation"] shape_TryAttestation
-  && before "call:outer:processAttestation" "call:outer:cleanupTimedOutBatches" shape_TryAttestation
-  && before "call:outer:processAttestation" "call:outer:pruneAttestations" shape_TryAttestation
-  && Nat.eqb (ntok "branch" shape_TryAttestation) 0.
+  list_eqb shape_TryAttestation
+    ["loop{"; "if(_){"; "continue"; "}"; "if(attestationPower.LT(requiredPower)){"; "continue"; "}";
+     "call:outer:k.SetLastObservedEventNonce"; "call:outer:k.SetLastObservedBlockHeight"; "set:att.Observed";
+     "call:outer:k.SetAttestation"; "call:outer:k.processAttestation"; "if(err){"; "}"; "event";
+     "call:outer:k.cleanupTimedOutBatches"; "call:outer:k.cleanupTimeOutBridgeCall";
+     "call:outer:k.pruneAttestations"; "break"; "}"].
 
 (* BridgeCallHandler: deposits on ctx in a loop BEFORE the branch; BridgeCallEvm on the branch, written only on success;
    then on ctx: the deposits handed from the receiver to the refund address (when they differ), the refund; exactly one
    branch and one write *)
 Definition ok_BridgeCallHandler : bool :=
-  block_in ["loop{"; "call:outer:BridgeTokenToBaseCoin"; "if(err){"; "return-err"; "}"; "}";
-            "branch"; "call:cache:BridgeCallEvm"; "if(ok){"; "commit"; "return"; "}"] shape_BridgeCallHandler
-  && block_in ["if(!bytes.Equal(receiverAddr.Bytes(),refundAddr.Bytes()) && !baseCoins.IsZero()){";
-               "call:outer:SendCoins"; "if(err){"; "return-err"; "}"; "}"; "call:outer:BridgeCallFailedRefund"; "return"] shape_BridgeCallHandler
-  && before "commit" "call:outer:SendCoins" shape_BridgeCallHandler
-  && Nat.eqb (ntok "branch" shape_BridgeCallHandler) 1 && Nat.eqb (ntok "commit" shape_BridgeCallHandler) 1
-  && Nat.eqb (ntok "defer-commit" shape_BridgeCallHandler) 0
-  && Nat.eqb (ntok "call:outer:BridgeCallEvm" shape_BridgeCallHandler) 0.
+  list_eqb shape_BridgeCallHandler
+    ["call:outer:k.CreateBridgeAccount"; "if(_){"; "if(_){"; "return-newerr"; "}"; "}"; "if(_){"; "}"; "loop{";
+     "call:outer:k.BridgeTokenToBaseCoin"; "if(err){"; "return-err"; "}"; "}"; "branch";
+     "call:cache:k.BridgeCallEvm"; "if(ok){"; "commit"; "return"; "}"; "event"; "if(!ctx.IsCheckTx()){"; "}";
+     "if(!bytes.Equal(receiverAddr.Bytes(),refundAddr.Bytes()) && !baseCoins.IsZero()){";
+     "call:outer:k.bankKeeper.SendCoins"; "if(err){"; "return-err"; "}"; "}"; "call:outer:k.BridgeCallFailedRefund";
+     "return"].
 
 (* BridgeCallEvm: conversions in a loop on the context it is given, then (only for a contract) the EVM call; no branch of its own *)
 Definition ok_BridgeCallEvm : bool :=
-  prefix_of ["loop{"; "call:outer:BaseCoinToEvm"; "if(err){"; "return-err"; "}"; "}"; "if(!k.evmKeeper.IsContract(ctx,to)){"] shape_BridgeCallEvm
-  && before "call:outer:BaseCoinToEvm" "call:outer:CallEVM" shape_BridgeCallEvm
-  && Nat.eqb (ntok "branch" shape_BridgeCallEvm) 0.
+  list_eqb shape_BridgeCallEvm
+    ["loop{"; "call:outer:k.BaseCoinToEvm"; "if(err){"; "return-err"; "}"; "}";
+     "if(!k.evmKeeper.IsContract(ctx,to)){"; "return"; "}"; "if(_){"; "}"; "else{"; "if(err){"; "return-err"; "}";
+     "}"; "call:outer:k.evmKeeper.CallEVM"; "if(err){"; "return-err"; "}"; "if(txResp.Failed()){"; "return-newerr";
+     "}"; "return"].
 
 (* the failure refund = AddOutgoingBridgeCall, which withdraws coin by coin (BaseCoinToBridgeToken) and then records the call *)
 Definition ok_refund : bool :=
-  list_eqb shape_BridgeCallFailedRefund ["call:outer:AddOutgoingBridgeCall"; "if(err){"; "return-err"; "}"; "return"]
+  list_eqb shape_BridgeCallFailedRefund
+    ["call:outer:k.AddOutgoingBridgeCall"; "if(err){"; "return-err"; "}"; "event"; "return"]
   && list_eqb shape_AddOutgoingBridgeCall
-       ["loop{"; "call:outer:BaseCoinToBridgeToken"; "if(err){"; "return-err"; "}"; "}";
-        "call:outer:BuildOutgoingBridgeCall"; "if(err){"; "return-err"; "}"; "call:outer:AddOutgoingBridgeCallWithoutBuild"; "return"].
+    ["loop{"; "call:outer:k.BaseCoinToBridgeToken"; "if(err){"; "return-err"; "}"; "}";
+     "call:outer:k.BuildOutgoingBridgeCall"; "if(err){"; "return-err"; "}";
+     "call:outer:k.AddOutgoingBridgeCallWithoutBuild"; "return"].
 
+(* ExecuteClaim: the pending claim is consumed on ctx first; each kind's handler on ctx; no branch *)
 Definition ok_ExecuteClaim : bool :=
-  before "call:outer:DeletePendingExecuteClaim" "call:outer:BridgeCallHandler" shape_ExecuteClaim
-  && Nat.eqb (ntok "branch" shape_ExecuteClaim) 0.
+  list_eqb shape_ExecuteClaim
+    ["if(_){"; "return-newerr"; "}"; "call:outer:k.DeletePendingExecuteClaim"; "case(*types.MsgSendToFxClaim){";
+     "call:outer:k.SendToFxExecuted"; "return"; "}"; "case(*types.MsgBridgeCallClaim){";
+     "call:outer:k.BridgeCallHandler"; "return"; "}"; "case(*types.MsgBridgeCallResultClaim){";
+     "call:outer:k.BridgeCallResultHandler"; "}"; "case(default){"; "return-newerr"; "}"; "return"].
 
 (* gov EndBlocker, case passes: one branch for all messages, each message on the branch, stop at the first error, write
-   only if none failed; the proposal is stored on ctx afterwards; three branches in the function (two hooks), never deferred *)
+   only if none failed (Status / FailedReason set accordingly); the proposal is stored on ctx afterwards; three branches in the
+   function (two hooks), never deferred *)
 Definition ok_gov : bool :=
-  block_in ["case(passes){"; "branch"; "if(err){"; "break"; "}"; "loop{"; "call:cache:safeExecuteHandler"; "if(err){"; "break"; "}"; "}";
-            "if(ok){"; "commit"; "}"] shape_govEndBlocker
-  && before "call:cache:safeExecuteHandler" "call:outer:SetProposal" shape_govEndBlocker
-  && before "call:outer:Tally" "call:cache:safeExecuteHandler" shape_govEndBlocker
+  block_in
+    ["case(passes){"; "branch"; "if(err){"; "set:proposal.Status"; "set:proposal.FailedReason"; "break"; "}";
+     "loop{"; "call:cache:safeExecuteHandler"; "if(err){"; "break"; "}"; "}"; "if(ok){"; "set:proposal.Status";
+     "commit"; "event"; "}"; "else{"; "set:proposal.Status"; "set:proposal.FailedReason"; "}"; "}"] shape_govEndBlocker
+  && before "call:cache:safeExecuteHandler" "call:outer:keeper.SetProposal" shape_govEndBlocker
+  && before "call:outer:keeper.Tally" "call:cache:safeExecuteHandler" shape_govEndBlocker
+  && before "call:outer:keeper.ActiveProposalsQueue.Remove" "call:cache:safeExecuteHandler" shape_govEndBlocker
   && Nat.eqb (ntok "branch" shape_govEndBlocker) 3 && Nat.eqb (ntok "commit" shape_govEndBlocker) 3
+  && Nat.eqb (ntok "call:cache:safeExecuteHandler" shape_govEndBlocker) 1
+  && Nat.eqb (ntok "call:outer:safeExecuteHandler" shape_govEndBlocker) 0
   && Nat.eqb (ntok "defer-commit" shape_govEndBlocker) 0.
 
-(* IBCMiddleware.OnRecvPacket: two parse exits with an error ack; transfer module; its error ack is returned as is;
-   then the keeper hook, whose error becomes an error ack; no branch of its own (the core's) *)
+(* IBCMiddleware.OnRecvPacket: two parse exits with an error ack; the TRANSFER MODULE (im.IBCModule); its error ack is returned
+   as is; then the KEEPER hook (im.Keeper), whose error becomes an error ack; no branch of its own (the core's), no recover *)
 Definition ok_mwOnRecv : bool :=
   list_eqb shape_mwOnRecvPacket
-    ["if(err){"; "return-errack"; "}"; "if(err){"; "return-errack"; "}";
-     "call:outer:OnRecvPacket"; "call:outer:Success"; "if(!ack.Success()){"; "return-ack"; "}";
-     "call:outer:OnRecvPacket"; "if(err){"; "return-errack"; "}"; "return-ack"]
-  || list_eqb shape_mwOnRecvPacket
-    ["if(err){"; "return-errack"; "}"; "if(err){"; "return-errack"; "}";
-     "call:outer:OnRecvPacket"; "if(!ack.Success()){"; "return-ack"; "}";
-     "call:outer:OnRecvPacket"; "if(err){"; "return-errack"; "}"; "return-ack"].
+    ["if(err){"; "return-errack"; "}"; "if(err){"; "return-errack"; "}"; "set:newPacketData.Receiver";
+     "set:newPacket.Data"; "call:outer:im.IBCModule.OnRecvPacket"; "if(!ack.Success()){"; "return-ack"; "}";
+     "call:outer:im.Keeper.OnRecvPacket"; "if(err){"; "return-errack"; "}"; "return-ack"].
 
 (* keeper hook: conversion (hex receivers only) before the memo call, every error returned *)
 Definition ok_relayOnRecv : bool :=
-  block_in ["call:outer:IBCCoinToEvm"; "if(err){"; "return-err"; "}"] shape_relayOnRecvPacket
-  && block_in ["call:outer:HandlerIbcCall"; "if(err){"; "return-err"; "}"] shape_relayOnRecvPacket
-  && before "call:outer:IBCCoinToEvm" "call:outer:HandlerIbcCall" shape_relayOnRecvPacket.
+  list_eqb shape_relayOnRecvPacket
+    ["if(err){"; "return-err"; "}"; "if(_){"; "return-newerr"; "}"; "event";
+     "if(receiveCoin.GetDenom() != fxtypes.DefaultDenom){"; "if(_){"; "return-newerr"; "}";
+     "call:outer:k.crossChainKeeper.IBCCoinToEvm"; "if(err){"; "return-err"; "}"; "}"; "if(len(data.Memo) > 0){";
+     "call:outer:k.HandlerIbcCall"; "if(err){"; "return-err"; "}"; "}"; "return"].
 
 (* ack / timeout: the transfer module first, then the keeper hook; error ack => refund hook, otherwise AfterIBCAckSuccess,
-   which deletes the IBC relation; IbcRefund consumes the IBC relation before converting *)
+   which deletes the IBC relation (through the erc20 keeper); IbcRefund consumes the IBC relation before converting *)
 Definition ok_ack_timeout : bool :=
-  before "call:outer:OnAcknowledgementPacket" "return" shape_mwOnAcknowledgementPacket
-  && Nat.eqb (ntok "call:outer:OnAcknowledgementPacket" shape_mwOnAcknowledgementPacket) 2
-  && Nat.eqb (ntok "call:outer:OnTimeoutPacket" shape_mwOnTimeoutPacket) 2
+  list_eqb shape_mwOnAcknowledgementPacket
+    ["call:outer:im.IBCModule.OnAcknowledgementPacket"; "if(err){"; "return-err"; "}"; "if(err){"; "return-newerr";
+     "}"; "if(err){"; "return-newerr"; "}"; "call:outer:im.Keeper.OnAcknowledgementPacket"; "if(err){"; "return-err";
+     "}"; "return"]
+  && list_eqb shape_mwOnTimeoutPacket
+    ["call:outer:im.IBCModule.OnTimeoutPacket"; "if(err){"; "return-err"; "}"; "if(err){"; "return-newerr"; "}";
+     "call:outer:im.Keeper.OnTimeoutPacket"; "if(err){"; "return-err"; "}"; "return"]
   && list_eqb shape_relayOnAcknowledgementPacket
-       ["case(*channeltypes.Acknowledgement_Error){"; "call:outer:refundPacketTokenHook"; "return"; "}";
-        "case(default){"; "call:outer:AfterIBCAckSuccess"; "return"; "}"]
-  && list_eqb shape_AfterIBCAckSuccess ["call:outer:DeleteIBCTransferRelation"]
+    ["case(*channeltypes.Acknowledgement_Error){"; "call:outer:k.refundPacketTokenHook"; "return"; "}";
+     "case(default){"; "call:outer:k.crossChainKeeper.AfterIBCAckSuccess"; "return"; "}"]
+  && list_eqb shape_AfterIBCAckSuccess
+    ["call:outer:k.erc20Keeper.DeleteIBCTransferRelation"]
   && list_eqb shape_IbcRefund
-       ["call:outer:DeleteIBCTransferRelation"; "if(!k.DeleteIBCTransferRelation(ctx,channel,sequence)){"; "return"; "}";
-        "call:outer:ConvertCoin"; "return-err"].
+    ["call:outer:k.DeleteIBCTransferRelation"; "if(!k.DeleteIBCTransferRelation(ctx,channel,sequence)){"; "return";
+     "}"; "call:outer:k.ConvertCoin"; "return-err"].
 
-(* ibc-go core RecvPacket: the application callback runs on a branch that is written iff the ack is nil or successful;
-   the acknowledgement is written on ctx afterwards *)
+(* ibc-go core RecvPacket: the channel keeper's own writes in a branch of their own, written on success; the application
+   callback runs on a second branch that is written iff the ack is nil or successful; the acknowledgement is written on ctx
+   afterwards *)
 Definition ok_coreRecv : bool :=
-  block_in ["branch"; "call:cache:OnRecvPacket"; "if(ack == nil || ack.Success()){"; "commit"; "}"; "else{"] shape_coreRecvPacket
-  && before "call:cache:OnRecvPacket" "call:outer:WriteAcknowledgement" shape_coreRecvPacket
-  && Nat.eqb (ntok "call:outer:OnRecvPacket" shape_coreRecvPacket) 0
-  && Nat.eqb (ntok "defer-commit" shape_coreRecvPacket) 0.
+  list_eqb shape_coreRecvPacket
+    ["if(err){"; "return-newerr"; "}"; "call:outer:k.ChannelKeeper.LookupModuleByChannel"; "if(err){";
+     "return-newerr"; "}"; "if(_){"; "return-newerr"; "}"; "branch"; "call:cache:k.ChannelKeeper.RecvPacket";
+     "case(nil){"; "commit"; "}"; "case(channeltypes.ErrNoOpMsg){"; "return"; "}"; "case(default){"; "return-newerr";
+     "}"; "branch"; "call:cache:cbs.OnRecvPacket"; "if(ack == nil || ack.Success()){"; "commit"; "}"; "else{";
+     "event"; "call:cache:EmitEvents"; "}"; "if(_){"; "call:outer:k.ChannelKeeper.WriteAcknowledgement"; "if(err){";
+     "return-err"; "}"; "}"; "return"].
 
 (* the tokens after the first occurrence of t *)
 Fixpoint after_first (t : string) (l : list string) : list string :=
@@ -125,35 +153,46 @@ Definition no_error_exit (l : list string) : bool :=
   Nat.eqb (ntok "return-newerr" l) 0 && Nat.eqb (ntok "return-err" l) 0.
 
 (* attestation handlers (attestation_handler.go): in every handler each error return PRECEDES the first store write, so a
-   handler that fails has written nothing (the discarded branch is empty on this code); OutgoingTxBatchExecuted and
-   SavePendingExecuteClaim have no error return at all — they can only panic, and so can UpdateOracleSetExecuted before
-   its write; a panic is not a tolerated failure (M_Cache.claim_tx) *)
+   handler that fails has written nothing (the discarded branch is empty on this code — C18_branch_unobservable_when_nothing_written);
+   OutgoingTxBatchExecuted and SavePendingExecuteClaim have no error return at all — they can only panic, and so can
+   UpdateOracleSetExecuted before its write; a panic is not a tolerated failure (M_Cache.claim_tx) *)
 Definition ok_handlers : bool :=
   list_eqb shape_AttestationHandler
-    ["case(*types.MsgSendToFxClaim){"; "call:outer:SavePendingExecuteClaim"; "}";
-     "case(*types.MsgSendToExternalClaim){"; "call:outer:OutgoingTxBatchExecuted"; "}";
-     "case(*types.MsgBridgeTokenClaim){"; "call:outer:AddBridgeTokenExecuted"; "return"; "}";
-     "case(*types.MsgOracleSetUpdatedClaim){"; "call:outer:UpdateOracleSetExecuted"; "return"; "}";
+    ["case(*types.MsgSendToFxClaim){"; "call:outer:k.SavePendingExecuteClaim"; "}";
+     "case(*types.MsgSendToExternalClaim){"; "call:outer:k.OutgoingTxBatchExecuted"; "}";
+     "case(*types.MsgBridgeTokenClaim){"; "call:outer:k.AddBridgeTokenExecuted"; "return"; "}";
+     "case(*types.MsgOracleSetUpdatedClaim){"; "call:outer:k.UpdateOracleSetExecuted"; "return"; "}";
      "case(default){"; "return-newerr"; "}"; "return"]
-  && Nat.ltb 0 (ntok "call:outer:AddBridgeToken" shape_AddBridgeTokenExecuted)
-  && no_error_exit (after_first "call:outer:AddBridgeToken" shape_AddBridgeTokenExecuted)
-  && Nat.eqb (ntok "panic" shape_AddBridgeTokenExecuted) 0
-  && Nat.ltb 0 (ntok "call:outer:SetLastObservedOracleSet" shape_UpdateOracleSetExecuted)
-  && no_error_exit (after_first "call:outer:SetLastObservedOracleSet" shape_UpdateOracleSetExecuted)
-  && Nat.eqb (ntok "panic" (after_first "call:outer:SetLastObservedOracleSet" shape_UpdateOracleSetExecuted)) 0
-  && no_error_exit shape_OutgoingTxBatchExecuted && Nat.ltb 0 (ntok "panic" shape_OutgoingTxBatchExecuted)
-  && no_error_exit shape_SavePendingExecuteClaim.
+  && list_eqb shape_AddBridgeTokenExecuted
+    ["if(_){"; "return-newerr"; "}"; "if(_){"; "if(uint64(fxtypes.DenomUnit) != claim.Decimals){"; "return-newerr";
+     "}"; "call:outer:k.AddBridgeToken"; "}"; "call:outer:k.AddBridgeToken"; "return"]
+  && no_error_exit (after_first "call:outer:k.AddBridgeToken" shape_AddBridgeTokenExecuted)
+  && list_eqb shape_UpdateOracleSetExecuted
+    ["if(_){"; "if(_){"; "return-newerr"; "}"; "set:observedOracleSet.Height"; "if(err){"; "panic"; "}"; "}";
+     "call:outer:k.SetLastObservedOracleSet"; "return"]
+  && no_error_exit (after_first "call:outer:k.SetLastObservedOracleSet" shape_UpdateOracleSetExecuted)
+  && Nat.eqb (ntok "panic" (after_first "call:outer:k.SetLastObservedOracleSet" shape_UpdateOracleSetExecuted)) 0
+  && list_eqb shape_OutgoingTxBatchExecuted
+    ["if(_){"; "panic"; "}"; "func{"; "if(_){"; "call:outer:k.CancelOutgoingTxBatch"; "if(err){"; "panic"; "}"; "}";
+     "return"; "}"; "call:outer:k.DeleteBatch"; "call:outer:k.DeleteBatchConfirm"; "loop{";
+     "if(k.erc20Keeper.HasOutgoingTransferRelation(ctx,k.moduleName,tx.Id)){";
+     "call:outer:k.erc20Keeper.DeleteOutgoingTransferRelation"; "}"; "}"]
+  && no_error_exit shape_OutgoingTxBatchExecuted
+  && list_eqb shape_SavePendingExecuteClaim
+    ["if(err){"; "panic"; "}"; "kv-set:outer"].
 
 (* SendToFx with an IBC target (send_to_fx.go): deposit, conversion base coin -> voucher and the ICS-20 transfer all run on the
    context ExecuteClaim was given, NO branch anywhere, every error is returned: a failed forward is not a tolerated failure —
    the executeClaim transaction keeps nothing and the claim stays pending *)
 Definition ok_sendtofx : bool :=
-  block_in ["call:outer:BridgeTokenToBaseCoin"; "if(err){"; "return-err"; "}"; "if(fxTarget.IsIBC()){";
-            "call:outer:transferIBCHandler"; "return"; "}"] shape_SendToFxExecuted
-  && Nat.eqb (ntok "branch" shape_SendToFxExecuted) 0
+  list_eqb shape_SendToFxExecuted
+    ["if(!ctx.IsCheckTx()){"; "}"; "if(err){"; "return-newerr"; "}"; "call:outer:k.BridgeTokenToBaseCoin";
+     "if(err){"; "return-err"; "}"; "if(fxTarget.IsIBC()){"; "call:outer:k.transferIBCHandler"; "return"; "}";
+     "if(fxTarget.GetTarget() == fxtypes.ERC20Target){"; "call:outer:k.BaseCoinToEvm"; "if(err){"; "return-err"; "}";
+     "event"; "}"; "return"]
   && list_eqb shape_transferIBCHandler
-       ["call:outer:BaseCoinToIBCCoin"; "if(err){"; "return-err"; "}"; "if(err){"; "return-err"; "}";
-        "call:outer:Transfer"; "if(err){"; "return-err"; "}"; "return-err"].
+    ["call:outer:k.BaseCoinToIBCCoin"; "if(err){"; "return-err"; "}"; "if(err){"; "return-err"; "}";
+     "call:outer:k.ibcTransferKeeper.Transfer"; "if(err){"; "return-err"; "}"; "event"; "return-err"].
 
 (* the refund of an outgoing bridge call that failed or timed out (bridge_call_refund.go, called by BridgeCallResultHandler and by
    cleanupTimeOutBridgeCall): NO error of it is tolerated — the coin transfer and the "refund to evm" conversion both panic on
@@ -163,16 +202,19 @@ Definition ok_sendtofx : bool :=
    failing one *)
 Definition ok_outgoing_refund : bool :=
   list_eqb shape_HandleOutgoingBridgeCallRefund
-    ["call:outer:bridgeCallTransferCoins"; "if(err){"; "panic"; "}";
-     "if(k.HasBridgeCallFromMsg(ctx,data.Nonce)){"; "return"; "}";
-     "call:outer:bridgeCallTransferTokens"; "if(err){"; "panic"; "}"; "return"]
-  && block_in ["call:outer:ConvertCoin"; "if(err){"; "return-err"; "}"] shape_bridgeCallTransferTokens
-  && Nat.eqb (ntok "branch" shape_bridgeCallTransferTokens) 0
-  && block_in ["call:outer:HandleOutgoingBridgeCallRefund"; "call:outer:DeleteOutgoingBridgeCallRecord"] shape_cleanupTimeOutBridgeCall
-  && Nat.eqb (ntok "branch" shape_cleanupTimeOutBridgeCall) 0
+    ["call:outer:k.bridgeCallTransferCoins"; "if(err){"; "panic"; "}"; "event";
+     "if(k.HasBridgeCallFromMsg(ctx,data.Nonce)){"; "return"; "}"; "call:outer:k.bridgeCallTransferTokens";
+     "if(err){"; "panic"; "}"; "return"]
+  && list_eqb shape_bridgeCallTransferTokens
+    ["loop{"; "if(_){"; "if(bytes.Equal(sender,receiver)){"; "continue"; "}"; "call:outer:k.bankKeeper.SendCoins";
+     "if(err){"; "return-err"; "}"; "continue"; "}"; "call:outer:k.erc20Keeper.ConvertCoin"; "if(err){";
+     "return-err"; "}"; "}"; "return"]
+  && list_eqb shape_cleanupTimeOutBridgeCall
+    ["func{"; "if(_){"; "return"; "}"; "call:outer:k.HandleOutgoingBridgeCallRefund";
+     "call:outer:k.DeleteOutgoingBridgeCallRecord"; "return"; "}"]
   && list_eqb shape_BridgeCallResultHandler
-       ["call:outer:CreateBridgeAccount"; "if(_){"; "panic"; "}"; "if(_){"; "call:outer:HandleOutgoingBridgeCallRefund"; "}";
-        "call:outer:DeleteOutgoingBridgeCallRecord"].
+    ["call:outer:k.CreateBridgeAccount"; "if(_){"; "panic"; "}"; "if(_){";
+     "call:outer:k.HandleOutgoingBridgeCallRefund"; "}"; "call:outer:k.DeleteOutgoingBridgeCallRecord"; "event"].
 
 (* none of the boundary functions recovers from a panic: a panic anywhere below them fails the whole transaction (nothing is
    written) — the model has no "panic turned into a normal return" case.  In particular IBCMiddleware.OnRecvPacket: a panicking
@@ -186,8 +228,47 @@ Definition ok_no_recover : bool :=
      shape_mwOnRecvPacket; shape_mwOnAcknowledgementPacket; shape_mwOnTimeoutPacket;
      shape_relayOnRecvPacket; shape_relayOnAcknowledgementPacket; shape_IbcRefund; shape_coreRecvPacket].
 
+(* ---- two levels below the boundary functions (same package, resolved by receiver type and name) ---- *)
+(* no hidden cache branch, no recover, and every error is passed on: each `if(err){` is followed at once by a return of an
+   error or a panic.  The two exceptions are part of the models:
+     x/gov safeExecuteHandler        recovers a panicking proposal message into an error (gov boundary: a message "fails")
+     HandlerIbcCall                  a memo that is not an ibc-call JSON is ignored (`if(err){ return nil`): M_Ibc MemoText *)
+Definition is_exit (t : string) : bool :=
+  existsb (String.eqb t) ["return-err"; "return-newerr"; "return-errack"; "panic"].
+Fixpoint errs_exit (l : list string) : bool :=
+  match l with
+  | a :: r => (if String.eqb a "if(err){" then match r with b :: _ => is_exit b | [] => false end else true) && errs_exit r
+  | [] => true
+  end.
+Definition plain (l : list string) : bool :=
+  Nat.eqb (ntok "branch" l) 0 && Nat.eqb (ntok "commit" l) 0 && Nat.eqb (ntok "defer-commit" l) 0 && no_recover l.
+Definition deep_ok_one (p : string * list string) : bool :=
+  if String.eqb (fst p) "x/gov:.safeExecuteHandler" then list_eqb (snd p) ["defer-recover"; "call:outer:handler"; "return"]
+  else if String.eqb (fst p) "x/ibc/middleware/keeper:Keeper.HandlerIbcCall" then
+    list_eqb (snd p) ["if(err){"; "return"; "}"; "if(err){"; "return-err"; "}"; "case(*types.IbcCallEvmPacket){";
+                      "call:outer:k.HandlerIbcCallEvm"; "return"; "}"; "case(default){"; "return-newerr"; "}"]
+  else plain (snd p) && errs_exit (snd p).
+Definition ok_deep : bool := forallb deep_ok_one deep_shapes && Nat.ltb 30 (length deep_shapes).
+
+(* the calls that hand a context to ANOTHER module (keeper interfaces, the IBC application stack, gov hooks): not followed by
+   the translator — their behaviour is read from their sources (x/bank SendCoins / Mint / Burn, erc20 ConvertCoin is followed from
+   IbcRefund, x/evm CallEVM, ibc-go transfer) and exercised by the correspondence runs.  Pinned: a new one shows up here *)
+Definition ok_unresolved : bool :=
+  list_eqb deep_unresolved
+    ["AfterProposalFailedMinDeposit"; "AfterProposalVotingPeriodEnded"; "EmitEvents"; "handler";
+     "im.IBCModule.OnAcknowledgementPacket"; "im.IBCModule.OnRecvPacket"; "im.IBCModule.OnTimeoutPacket";
+     "im.Keeper.OnAcknowledgementPacket"; "im.Keeper.OnRecvPacket"; "im.Keeper.OnTimeoutPacket";
+     "k.ChannelKeeper.LookupModuleByChannel"; "k.ChannelKeeper.RecvPacket"; "k.ChannelKeeper.WriteAcknowledgement";
+     "k.bankKeeper.BurnCoins"; "k.bankKeeper.MintCoins"; "k.bankKeeper.SendCoins";
+     "k.bankKeeper.SendCoinsFromAccountToModule"; "k.bankKeeper.SendCoinsFromModuleToAccount";
+     "k.crossChainKeeper.AfterIBCAckSuccess"; "k.crossChainKeeper.IBCCoinRefund"; "k.crossChainKeeper.IBCCoinToEvm";
+     "k.erc20Keeper.ConvertCoin"; "k.erc20Keeper.ConvertDenomToTarget"; "k.erc20Keeper.DeleteIBCTransferRelation";
+     "k.erc20Keeper.DeleteOutgoingTransferRelation"; "k.evmKeeper.CallEVM"; "k.ibcTransferKeeper.Transfer";
+     "keeper.ActiveProposalsQueue.Remove"; "keeper.ActiveProposalsQueue.Set"; "keeper.ActiveProposalsQueue.Walk";
+     "keeper.InactiveProposalsQueue.Remove"; "keeper.InactiveProposalsQueue.Walk"].
+
 Definition source_shapes_ok : bool :=
   ok_handlers && ok_sendtofx &&
   ok_processAttestation && ok_TryAttestation && ok_BridgeCallHandler && ok_BridgeCallEvm && ok_refund && ok_ExecuteClaim
   && ok_gov && ok_mwOnRecv && ok_relayOnRecv && ok_ack_timeout && ok_coreRecv
-  && ok_outgoing_refund && ok_no_recover.
+  && ok_outgoing_refund && ok_no_recover && ok_deep && ok_unresolved.
